@@ -97,11 +97,13 @@ VARIABLES
   timerSet, ntimer, nfault, ncalls,
   th,        \* caller goroutines: [pc, kind, r, f, call]
   gated,     \* ReqRes whose global callback blocks until released
+  ustopped,  \* the owner has called Stop()
+  panicked,  \* Done() was called twice on one ReqRes: "sync: negative WaitGroup counter", the process dies
   h,         \* ghost history
   act
 vars == <<reqs, queue, sent, sendpc, wbuf, c2s, pend, sbuf, app, s2c, rbuf, srvClosed, recvpc, mtx, done, resp,
           cbset, cbinv, cbret, err, stopped, stoppc, stopby, quit, connClosed, timerSet, ntimer, nfault,
-          ncalls, th, gated, h, act>>
+          ncalls, th, gated, ustopped, panicked, h, act>>
 
 NoResp == [k |-> "none", typ |-> "-", for |-> 0, part |-> FALSE]
 Res(typ, r) == [k |-> "res", typ |-> typ, for |-> r, part |-> FALSE]
@@ -109,12 +111,12 @@ Item(k) == [k |-> k, typ |-> "-", for |-> 0, part |-> FALSE]
 OtherTyp(t) == IF t = "A" THEN "B" ELSE "A"
 TypOf(kind) == CASE kind \in {"AsyncA", "SyncA"} -> "A" [] kind \in {"AsyncB", "SyncB"} -> "B" [] OTHER -> "F"
 IsSync(kind) == kind \in {"SyncA", "SyncB", "FlushSync"}
-InSeq(s, x) == \E i \in DOMAIN s : s[i] = x
-Pos(s, x) == CHOOSE i \in DOMAIN s : s[i] = x
-IsPrefix(s, t) == Len(s) <= Len(t) /\ \A i \in DOMAIN s : s[i] = t[i]
-Remove(s, i) == [j \in 1..(Len(s) - 1) |-> IF j < i THEN s[j] ELSE s[j + 1]]
-Bump(d, S) == [i \in DOMAIN d |-> IF i \in S THEN d[i] + 1 ELSE d[i]]
-Range(s) == {s[i] : i \in DOMAIN s}
+AbIn(s, x) == \E i \in DOMAIN s : s[i] = x
+AbPos(s, x) == CHOOSE i \in DOMAIN s : s[i] = x
+AbPrefix(s, t) == Len(s) <= Len(t) /\ \A i \in DOMAIN s : s[i] = t[i]
+AbRemove(s, i) == [j \in 1..(Len(s) - 1) |-> IF j < i THEN s[j] ELSE s[j + 1]]
+AbBump(d, S) == [i \in DOMAIN d |-> IF i \in S THEN d[i] + 1 ELSE d[i]]
+AbRange(s) == {s[i] : i \in DOMAIN s}
 A0(n) == [name |-> n]
 
 Idle == [pc |-> "idle", kind |-> "-", r |-> 0, f |-> 0, call |-> 0, gate |-> FALSE]
@@ -129,9 +131,8 @@ Init ==
   /\ err = "nil" /\ stopped = FALSE /\ stoppc = "none" /\ stopby = "-" /\ quit = FALSE /\ connClosed = FALSE
   /\ timerSet = FALSE /\ ntimer = 0 /\ nfault = 0 /\ ncalls = 0
   /\ th = [t \in Threads |-> Idle]
-  /\ gated = {}
-  /\ h = [issued |-> << >>, matched |-> << >>, cblog |-> << >>, rets |-> << >>, faultHit |-> FALSE,
-          lied |-> FALSE, ustopped |-> FALSE, panicked |-> FALSE]
+  /\ gated = {} /\ ustopped = FALSE /\ panicked = FALSE
+  /\ h = [issued |-> << >>, matched |-> << >>, cblog |-> << >>, rets |-> << >>, faultHit |-> FALSE, lied |-> FALSE]
   /\ act = A0("Init")
 
 HasCb(k, r) == \E i \in DOMAIN h.cblog : h.cblog[i].k = k /\ h.cblog[i].r = r
@@ -163,8 +164,8 @@ StopBegin(X) ==
 
 \* Stop() by the owner (no error is recorded)
 UStop ==
-  /\ UserStop /\ ~h.ustopped
-  /\ h' = [h EXCEPT !.ustopped = TRUE]
+  /\ UserStop /\ ~ustopped
+  /\ ustopped' = TRUE /\ UNCHANGED <<h, rbuf, panicked>>
   /\ IF stopped THEN UNCHANGED <<stopped, stoppc, stopby>>
                 ELSE stopped' = TRUE /\ stoppc' = "close" /\ stopby' = "user"
   /\ act' = A0("UStop")
@@ -185,10 +186,10 @@ StopClose ==
 \* OnStop: flushQueue() under cli.mtx
 StopFlush ==
   /\ stoppc = "flush" /\ mtx = "free"
-  /\ LET rel == IF Weak_ErrorLeavesPendingBlocked THEN {} ELSE Range(sent) \cup Range(queue)
-         d2  == Bump(done, rel)
+  /\ LET rel == IF Weak_ErrorLeavesPendingBlocked THEN {} ELSE AbRange(sent) \cup AbRange(queue)
+         d2  == AbBump(done, rel)
      IN /\ done' = d2
-        /\ h' = [h EXCEPT !.panicked = @ \/ \E i \in DOMAIN d2 : d2[i] > 1]
+        /\ panicked' = (\E i \in DOMAIN d2 : d2[i] > 1) /\ UNCHANGED <<h, rbuf, ustopped>>
   /\ queue' = IF Weak_ErrorLeavesPendingBlocked THEN queue ELSE << >>
   /\ sent' = IF Weak_FlushQueueKeepsSent \/ Weak_ErrorLeavesPendingBlocked THEN sent ELSE << >>
   /\ stoppc' = "quit"
@@ -208,7 +209,7 @@ StopQuit ==
                  connClosed, ucCount, th, h>>
 
 \* ------------------------------------------------------------------ callers
-NewReq(typ, by, call) == [typ |-> typ, by |-> by, call |-> call]
+NewReq(typ, by, call, async) == [typ |-> typ, by |-> by, call |-> call, async |-> async]
 
 StartCall(t, kind, gate) ==
   /\ th[t].pc = "idle" /\ ncalls < MaxCalls /\ kind \in CallKinds
@@ -224,11 +225,11 @@ StartCall(t, kind, gate) ==
 \* repaired: select { case reqQueue <- r: ; case <-Quit(): r.Done() } and, after a successful
 \* send on a stopped client, the caller runs flushQueue itself (pc "drain").
 CanEnq == Len(queue) < QCap \/ ((~Weak_DeadQueueBlocks) /\ quit)
-EnqEffect(typ, by, call) ==
+EnqEffect(typ, by, call, async) ==
   LET n == Len(reqs) + 1
       dropped == Len(queue) >= QCap      \* only reachable repaired /\ quit
   IN
-  /\ reqs' = Append(reqs, NewReq(typ, by, call))
+  /\ reqs' = Append(reqs, NewReq(typ, by, call, async))
   /\ resp' = Append(resp, NoResp)
   /\ h' = [h EXCEPT !.issued = IF dropped THEN @ ELSE Append(@, n)]
   /\ timerSet' = IF quit THEN FALSE ELSE (typ # "F")
@@ -239,13 +240,13 @@ AfterEnq(t) == IF th[t].f # 0 THEN "chk" ELSE IF IsSync(th[t].kind) THEN "enqf" 
 
 Ret(t, e, got, ok) ==
   [t |-> t, call |-> th[t].call, kind |-> th[t].kind, r |-> th[t].r, f |-> th[t].f, err |-> e, got |-> got,
-   ok |-> ok, ustopped |-> h.ustopped]
+   ok |-> ok, ustopped |-> ustopped]
 
 Enq(t) ==
   LET n == Len(reqs) + 1
       kind == th[t].kind IN
   /\ th[t].pc = "enq" /\ CanEnq
-  /\ EnqEffect(TypOf(kind), t, th[t].call)
+  /\ EnqEffect(TypOf(kind), t, th[t].call, ~IsSync(kind))
   /\ gated' = IF th[t].gate THEN gated \cup {n} ELSE gated
   /\ th' = IF NeedDrain THEN [th EXCEPT ![t].pc = "drain", ![t].r = n]
            ELSE IF IsSync(kind) THEN [th EXCEPT ![t].pc = "enqf", ![t].r = n]
@@ -257,7 +258,7 @@ Enq(t) ==
 EnqF(t) ==
   LET n == Len(reqs) + 1 IN
   /\ th[t].pc = "enqf" /\ CanEnq
-  /\ EnqEffect("F", t, th[t].call)
+  /\ EnqEffect("F", t, th[t].call, FALSE)
   /\ th' = [th EXCEPT ![t].pc = IF NeedDrain THEN "drain" ELSE "chk", ![t].f = n]
   /\ act' = [name |-> "EnqF", t |-> t, r |-> n]
   /\ UNCHANGED <<wbuf, ntimer, sent, sendpc, c2s, ucSrv, s2c, recvpc, mtx, ucCb, ucStop, ucCount>>
@@ -265,25 +266,25 @@ EnqF(t) ==
 \* repaired queueRequest on a stopped client: flushQueue() by the caller
 Drain(t) ==
   /\ th[t].pc = "drain" /\ mtx = "free"
-  /\ done' = Bump(done, Range(sent) \cup Range(queue))
-  /\ h' = [h EXCEPT !.panicked = @ \/ \E i \in Range(sent) \cup Range(queue) : done[i] >= 1]
+  /\ done' = AbBump(done, AbRange(sent) \cup AbRange(queue))
+  /\ panicked' = (\E i \in AbRange(sent) \cup AbRange(queue) : done[i] >= 1) /\ UNCHANGED <<h, rbuf, ustopped>>
   /\ queue' = << >> /\ sent' = << >>
   /\ th' = IF AfterEnq(t) = "idle" THEN [th EXCEPT ![t] = Idle] ELSE [th EXCEPT ![t].pc = AfterEnq(t)]
   /\ act' = [name |-> "Drain", t |-> t]
   /\ UNCHANGED <<ucClient, sendpc, c2s, ucSrv, s2c, recvpc, mtx, resp, ucCb, ucStop, ucCount>>
 
 \* everything issued before request f has been handled and its callbacks have run
-Before(f) == {h.issued[i] : i \in 1..(IF InSeq(h.issued, f) THEN Pos(h.issued, f) - 1 ELSE 0)}
+Before(f) == {h.issued[i] : i \in 1..(IF AbIn(h.issued, f) THEN AbPos(h.issued, f) - 1 ELSE 0)}
 FlushOK(f) ==
   \A q \in Before(f) :
      /\ resp[q] # NoResp
      /\ HasCb("g", q)
      /\ (q \in cbret => HasCb("r", q))
-     /\ (~h.lied => InSeq(app, q))
+     /\ (~h.lied => AbIn(app, q))
 
 \* FlushSync: if err := cli.Error(); err != nil { return err }
 Chk(t) ==
-  /\ th[t].pc = "chk"
+  /\ th[t].pc = "chk" /\ mtx = "free"          \* cli.Error() takes cli.mtx
   /\ IF err # "nil"
        THEN /\ h' = [h EXCEPT !.rets = Append(@, Ret(t, "err", 0, TRUE))]
             /\ th' = [th EXCEPT ![t] = Idle]
@@ -296,7 +297,7 @@ Fin(t) ==
   LET w == IF Weak_FlushDoesNotWaitForCallbacks /\ th[t].r # 0 THEN th[t].r ELSE th[t].f
       e == IF err = "nil" THEN "nil" ELSE "err"
       got == IF th[t].r # 0 THEN resp[th[t].r].for ELSE 0 IN
-  /\ th[t].pc = "wait" /\ done[w] >= 1
+  /\ th[t].pc = "wait" /\ done[w] >= 1 /\ mtx = "free"   \* cli.Error() takes cli.mtx
   /\ h' = [h EXCEPT !.rets = Append(@, Ret(t, e, got, FlushOK(th[t].f)))]
   /\ th' = [th EXCEPT ![t] = Idle]
   /\ act' = [name |-> "Fin", t |-> t]
@@ -305,7 +306,7 @@ Fin(t) ==
 \* ReqRes.SetCallback by the goroutine that made the Async call (mempool: CheckTxAsync; SetCallback)
 SetCallback(t, r) ==
   /\ SetCb /\ th[t].pc = "idle" /\ r \in DOMAIN reqs /\ reqs[r].by = t /\ reqs[r].typ # "F"
-  /\ r \notin cbret /\ ~(\E i \in DOMAIN h.rets : h.rets[i].r = r)      \* a handle of an Async call
+  /\ r \notin cbret /\ reqs[r].async                                   \* a handle of an Async call
   /\ ~(recvpc.pc = "rcb" /\ recvpc.r = r)                               \* r.mtx is held by InvokeCallback
   /\ cbret' = cbret \cup {r}
   /\ IF r \in cbinv
@@ -329,7 +330,7 @@ SendDequeue ==
 SendTrack ==
   /\ sendpc.pc = "have" /\ mtx = "free"
   /\ IF stopped /\ ~Weak_InHandLost
-       THEN /\ sent' = sent /\ done' = Bump(done, {sendpc.r})      \* repaired: released, not tracked
+       THEN /\ sent' = sent /\ done' = AbBump(done, {sendpc.r})      \* repaired: released, not tracked
             /\ sendpc' = [sendpc EXCEPT !.pc = "sel", !.r = 0]
        ELSE /\ sent' = Append(sent, sendpc.r) /\ done' = done
             /\ sendpc' = [sendpc EXCEPT !.pc = IF Weak_SendBeforeTrack THEN "sel" ELSE "write"]
@@ -367,7 +368,7 @@ TimerFire ==
   /\ ntimer' = ntimer + 1 /\ timerSet' = FALSE
   /\ IF Len(queue) < QCap
        THEN LET n == Len(reqs) + 1 IN
-            /\ reqs' = Append(reqs, NewReq("F", "timer", 0)) /\ resp' = Append(resp, NoResp)
+            /\ reqs' = Append(reqs, NewReq("F", "timer", 0, FALSE)) /\ resp' = Append(resp, NoResp)
             /\ done' = Append(done, 0) /\ queue' = Append(queue, n)
             /\ h' = [h EXCEPT !.issued = Append(@, n)]
        ELSE UNCHANGED <<reqs, resp, done, queue, h>>
@@ -398,6 +399,7 @@ RecvRead ==
                 ELSE recvpc' = [recvpc EXCEPT !.pc = "stop", !.e = "exception"]
         ELSE recvpc' = [recvpc EXCEPT !.pc = "did", !.x = x] /\ UNCHANGED h
   /\ act' = A0("RecvRead")
+  /\ UNCHANGED <<ustopped, panicked>>
   /\ UNCHANGED <<ucClient, queue, sent, sendpc, c2s, ucSrv, mtx, done, resp, ucCb, ucStop, ucCount, th>>
 
 MatchIdx(x) ==
@@ -414,21 +416,22 @@ RecvDid ==
      IF sent = << >>
        THEN /\ recvpc' = [recvpc EXCEPT !.pc = "stop", !.e = "unsolicited"]
             /\ h' = [h EXCEPT !.faultHit = TRUE]
-            /\ UNCHANGED <<sent, resp, done, mtx>>
+            /\ UNCHANGED <<sent, resp, done, mtx, panicked>>
        ELSE LET i == MatchIdx(x)
                 r == sent[i] IN
             IF reqs[r].typ # x.typ /\ ~Weak_NoTypeCheck
               THEN /\ recvpc' = [recvpc EXCEPT !.pc = "stop", !.e = "wrongtype"]
                    /\ h' = [h EXCEPT !.faultHit = TRUE]
-                   /\ UNCHANGED <<sent, resp, done, mtx>>
+                   /\ UNCHANGED <<sent, resp, done, mtx, panicked>>
               ELSE /\ resp' = [resp EXCEPT ![r] = x]
-                   /\ done' = Bump(done, {r})
-                   /\ sent' = Remove(sent, i)
+                   /\ done' = AbBump(done, {r})
+                   /\ sent' = AbRemove(sent, i)
                    /\ mtx' = "recv"
                    /\ recvpc' = [recvpc EXCEPT !.pc = "gcb", !.r = r]
-                   /\ h' = [h EXCEPT !.matched = Append(@, r), !.lied = @ \/ x.for # r,
-                                     !.panicked = @ \/ done[r] >= 1]
+                   /\ h' = [h EXCEPT !.matched = Append(@, r), !.lied = @ \/ x.for # r]
+                   /\ panicked' = (done[r] >= 1)
   /\ act' = A0("RecvDid")
+  /\ UNCHANGED <<rbuf, ustopped>>
   /\ UNCHANGED <<ucClient, queue, sendpc, c2s, ucSrv, s2c, ucCb, ucStop, ucCount, th>>
 
 \* the global callback cli.resCb(req, res) has run (it may block first: gate)
@@ -501,8 +504,9 @@ SrvFinishFrame ==
   /\ act' = A0("SrvFinishFrame")
   /\ UNCHANGED <<ucRaw, app, c2s, pend, srvClosed, nfault>>
 
-Fault(f) ==
+Fault(f, ty) ==
   /\ Server = "raw" /\ ~srvClosed /\ f \in Faults /\ nfault < MaxFaults
+  /\ ty \in {"A", "F"} /\ (f # "extra" => ty = "A")
   /\ nfault' = nfault + 1
   /\ CASE f = "wrongtype" ->   \* the answer to the oldest pending request has another type
             /\ ~LastPartial /\ pend # << >>
@@ -510,11 +514,11 @@ Fault(f) ==
             /\ UNCHANGED <<srvClosed, c2s>>
        [] f = "swap" ->        \* the second pending request is answered first
             /\ ~LastPartial /\ Len(pend) >= 2
-            /\ s2c' = Append(s2c, Res(reqs[pend[2]].typ, pend[2])) /\ pend' = Remove(pend, 2)
+            /\ s2c' = Append(s2c, Res(reqs[pend[2]].typ, pend[2])) /\ pend' = AbRemove(pend, 2)
             /\ UNCHANGED <<srvClosed, c2s>>
        [] f = "extra" ->       \* a response nobody asked for (duplicate / unsolicited)
             /\ ~LastPartial
-            /\ \E ty \in {"A", "F"} : s2c' = Append(s2c, Res(ty, 0))
+            /\ s2c' = Append(s2c, Res(ty, 0))
             /\ UNCHANGED <<pend, srvClosed, c2s>>
        [] f = "exception" ->
             /\ ~LastPartial /\ s2c' = Append(s2c, Item("exc")) /\ UNCHANGED <<pend, srvClosed, c2s>>
@@ -527,44 +531,67 @@ Fault(f) ==
        [] f = "midframe" ->    \* closed in the middle of a frame
             /\ LastPartial /\ s2c' = [s2c EXCEPT ![Len(s2c)] = Item("eof")] /\ srvClosed' = TRUE /\ c2s' = << >>
             /\ UNCHANGED pend
-  /\ act' = [name |-> "Fault", f |-> f]
+  /\ act' = [name |-> "Fault", f |-> f, ty |-> ty]
   /\ UNCHANGED <<ucRaw, app>>
 
 \* ------------------------------------------------------------------ next-state relation
-InternalNoRead ==
-  \/ \E t \in Threads : Enq(t) \/ EnqF(t) \/ Drain(t) \/ Chk(t) \/ Fin(t)
+ucGhost == <<rbuf, ustopped, panicked>>
+InternalPlain ==
+  \/ \E t \in Threads : Enq(t) \/ EnqF(t) \/ Chk(t) \/ Fin(t)
   \/ SendDequeue \/ SendTrack \/ SendWrite \/ SendSpill \/ SendQuit
-  \/ RecvDid \/ RecvGcb \/ RecvRcb
-  \/ StopBegin("send") \/ StopBegin("recv") \/ StopClose \/ StopFlush \/ StopQuit
+  \/ RecvGcb \/ RecvRcb
+  \/ StopBegin("send") \/ StopBegin("recv") \/ StopClose \/ StopQuit
   \/ SrvHandle
-Internal == RecvRead \/ (InternalNoRead /\ UNCHANGED rbuf)
+Internal ==
+  \/ InternalPlain /\ UNCHANGED ucGhost
+  \/ RecvRead \/ RecvDid \/ StopFlush
+  \/ \E t \in Threads : Drain(t)
 
-EnvStep ==
+EnvPlain ==
   \/ \E t \in Threads, kind \in CallKinds, g \in BOOLEAN : StartCall(t, kind, g)
   \/ \E t \in Threads, r \in DOMAIN reqs : SetCallback(t, r)
-  \/ UStop \/ ReleaseGate \/ TimerFire \/ SrvPanic
+  \/ ReleaseGate \/ TimerFire \/ SrvPanic
   \/ SrvGot \/ SrvFinishFrame
   \/ \E p \in BOOLEAN : SrvReply(p)
-  \/ \E f \in Faults : Fault(f)
-Env == EnvStep /\ UNCHANGED rbuf
+  \/ \E f \in Faults, ty \in {"A", "F"} : Fault(f, ty)
+Env == UStop \/ (EnvPlain /\ UNCHANGED ucGhost)
 
 Next ==
-  /\ ~h.panicked              \* the process is gone
+  /\ ~panicked              \* the process is gone
   /\ \/ Internal
      \/ (Prio => ~ENABLED Internal) /\ Env
 
 Spec == Init /\ [][Next]_vars
 
+\* ------------------------------------------------------------------ observable projection (harness Obs lines)
+Label(r) == IF reqs[r].typ = "F" THEN "F" ELSE "c" \o ToString(reqs[r].call)
+Labels(q) == [i \in DOMAIN q |-> Label(q[i])]
+GateActive == recvpc.pc = "gcb" /\ recvpc.r \in gated
+Proj == [busy      |-> {t \in Threads : th[t].pc # "idle"},
+         qlen      |-> Len(queue),
+         sent      |-> Labels(sent),
+         arrived   |-> Labels(c2s),
+         pend      |-> Labels(pend),
+         running   |-> ~stopped,
+         quit      |-> quit,
+         err       |-> IF err = "nil" THEN "nil" ELSE "err",
+         gate      |-> IF GateActive THEN Label(recvpc.r) ELSE "",
+         ncbS      |-> Len(h.cblog) + (IF GateActive THEN 1 ELSE 0),
+         ncbE      |-> Len(h.cblog),
+         got       |-> {Label(r) : r \in {q \in DOMAIN reqs : reqs[q].async /\ reqs[q].typ # "F" /\ resp[q] # NoResp}},
+         sendAlive |-> sendpc.pc # "exit",
+         recvAlive |-> recvpc.pc # "exit"]
+
 \* ------------------------------------------------------------------ properties
 \* (1) PerConnectionFIFO
 \* in order, each at most once; without gaps as long as the client has not been stopped
 \* (a stopping client drops what is still queued)
-OrderedSub(s, t) == /\ \A i \in DOMAIN s : InSeq(t, s[i])
-                    /\ \A i, j \in DOMAIN s : i < j => Pos(t, s[i]) < Pos(t, s[j])
-FIFO_App == OrderedSub(app, h.issued) /\ (~stopped => IsPrefix(app, h.issued))
+AbOrderedSub(s, t) == /\ \A i \in DOMAIN s : AbIn(t, s[i])
+                    /\ \A i, j \in DOMAIN s : i < j => AbPos(t, s[i]) < AbPos(t, s[j])
+FIFO_App == AbOrderedSub(app, h.issued) /\ (~stopped => AbPrefix(app, h.issued))
 RespOwn == ~h.lied => \A r \in DOMAIN resp : resp[r] # NoResp => resp[r].for = r
 RespType == \A r \in DOMAIN resp : resp[r] # NoResp => resp[r].typ = reqs[r].typ
-RespOrder == OrderedSub(h.matched, h.issued) /\ (~stopped => IsPrefix(h.matched, h.issued))
+RespOrder == AbOrderedSub(h.matched, h.issued) /\ (~stopped => AbPrefix(h.matched, h.issued))
 PerConnectionFIFO == FIFO_App /\ RespOwn /\ RespType /\ RespOrder
 
 \* (2) FlushMeaning: a *Sync / FlushSync call that returns without error (and was not cut by
@@ -581,25 +608,27 @@ CbOnce == \A r \in DOMAIN reqs : NCb("g", r) <= 1 /\ NCb("r", r) <= 1
 CbInOrder ==   \* callbacks run by the recv routine: in request order, request callback right after the global one
   LET rc == SelectSeq(h.cblog, LAMBDA e : e.by = "recv")
       gs == SelectSeq(rc, LAMBDA e : e.k = "g") IN
-  /\ IsPrefix([i \in DOMAIN gs |-> gs[i].r], h.matched)
+  /\ AbPrefix([i \in DOMAIN gs |-> gs[i].r], h.matched)
   /\ \A i \in DOMAIN rc : rc[i].k = "r" => i > 1 /\ rc[i - 1].k = "g" /\ rc[i - 1].r = rc[i].r
 CbNotLost == \A r \in cbret : r \in cbinv => HasCb("r", r)
 CbOwn == \A i \in DOMAIN h.cblog : h.cblog[i].for = h.cblog[i].r \/ h.lied
 CallbackOrder == CbOnce /\ CbInOrder /\ CbNotLost /\ CbOwn
 
 \* (4) ErrorIsTerminal
-NoPanic == ~h.panicked
+NoPanic == ~panicked
 DoneOnce == \A r \in DOMAIN done : done[r] <= 1
 Settled == stoppc = "done" /\ sendpc.pc = "exit" /\ recvpc.pc = "exit"
 Stuck(t) == \/ th[t].pc = "wait" /\ done[IF Weak_FlushDoesNotWaitForCallbacks /\ th[t].r # 0 THEN th[t].r ELSE th[t].f] = 0
             \/ th[t].pc \in {"enq", "enqf"} /\ ~CanEnq
 NoStuckCaller == Settled => \A t \in Threads : ~Stuck(t)
+NoStuckWaiter == Settled => \A t \in Threads : ~(Stuck(t) /\ th[t].pc = "wait")
+NoStuckEnqueuer == Settled => \A t \in Threads : ~(Stuck(t) /\ th[t].pc # "wait")
 \* once the recv routine has met a fault it handles nothing more, and it leaves the client stopped with an error
 FaultStops == h.faultHit => /\ recvpc.pc \in {"stop", "stopping", "exit"}
-                            /\ (recvpc.pc = "exit" /\ ~h.ustopped) => (stopped /\ err # "nil")
+                            /\ (recvpc.pc = "exit" /\ ~ustopped) => (stopped /\ err # "nil")
 ErrSticky == \A i \in DOMAIN h.rets : LET x == h.rets[i] IN (x.r # 0 /\ x.got # 0 /\ ~h.lied) => x.got = x.r
 \* a fault-free run against the honest server never stops the client
-HonestNoError == (nfault = 0 /\ ~h.ustopped /\ ~h.lied) => (err = "nil" /\ ~stopped)
+HonestNoError == (nfault = 0 /\ ~ustopped /\ ~h.lied) => (err = "nil" /\ ~stopped)
 \* ... and when nothing more can happen by itself every call has returned
 HonestProgress == (nfault = 0 /\ ~stopped /\ Server = "honest" /\ ~ENABLED Internal /\ gated = {})
                     => \A t \in Threads : th[t].pc = "idle"
@@ -607,5 +636,5 @@ ErrorIsTerminal == NoPanic /\ DoneOnce /\ NoStuckCaller /\ FaultStops /\ ErrStic
 
 View == <<reqs, queue, sent, sendpc, wbuf, c2s, pend, sbuf, app, s2c, rbuf, srvClosed, recvpc, mtx, done, resp,
           cbset, cbinv, cbret, err, stopped, stoppc, stopby, quit, connClosed, timerSet, ntimer, nfault,
-          ncalls, th, gated, h>>
+          ncalls, th, gated, ustopped, panicked, h>>
 =============================================================================
